@@ -58,4 +58,15 @@ def r5_whole_writes(ctx):
         o["site"] = "sink:" + o["site"]
         o["rule"] = "R5"
 
-RULES = [("R1", r1_tables), ("R2", r2_consumed), ("R3", r3_position), ("R4", r4_who_writes), ("R5", r5_whole_writes)]
+def r6_whitespace(ctx):
+    """the spacing that the round trip is allowed to normalise (after the DOCTYPE keyword, in end tags) is XML white
+    space and nothing else: one notion of white space in the crate, with exactly the four characters (C01 R5)"""
+    import c01
+    n0 = len(ctx.obs)
+    c01.r5_whitespace(ctx)
+    for o in ctx.obs[n0:]:
+        o["site"] = "whitespace:" + o["site"]
+        o["rule"] = "R6"
+
+
+RULES = [("R1", r1_tables), ("R2", r2_consumed), ("R3", r3_position), ("R4", r4_who_writes), ("R5", r5_whole_writes), ("R6", r6_whitespace)]
